@@ -3,10 +3,12 @@ import os
 import framework as fw
 import cli_stream
 
-THEOREM_MODULES = ["Hcl.Theorems.C19", "Hcl.Tie.Cli", "Hcl.Tie.PinsMain"]
-THEOREMS = {"Hcl.Theorems.C19": ["C19_exit", "C19_option_error", "C19_output_matches_status", "C19_check_simulates_nothing"],
+THEOREM_MODULES = ["Hcl.Theorems.C19", "Hcl.Theorems.C19Argv", "Hcl.Tie.Cli", "Hcl.Tie.PinsMain", "Hcl.Theorems.C19Bytes"]
+THEOREMS = {"Hcl.Theorems.C19Bytes": ["C19_argv_bytes_not_utf8", "C19_argv_bytes_utf8", "C19_argv_bytes_status"],
+            "Hcl.Theorems.C19": ["C19_exit", "C19_option_error", "C19_output_matches_status", "C19_check_simulates_nothing"],
+            "Hcl.Theorems.C19Argv": ["C19_argv_exit", "C19_argv_option_error", "C19_argv_option_error_anywhere", "C19_argv_option_twice", "C19_argv_timeout", "C19_argv_bad_timeout", "C19_argv_options_commute", "C19Argv.parse_error_iff", "C19Argv.parse_ok", "C19Argv.optPresent_iff", "C19Argv.isBad_iff", "C19Argv.help_present_iff", "C19Argv.parseU32_iff"],
             "Hcl.Tie.Cli": ["Tie.Cli.cliOptions", "Tie.Cli.cliDefaultTimeout", "Tie.Cli.cliYoSuffix"],
-            "Hcl.Tie.PinsMain": ["Tie.PinsMain.pinMainReal"]}
+            "Hcl.Tie.PinsMain": ["Tie.PinsMain.pinMainReal", "Tie.PinsMain.pinRunY86"]}
 
 RULE = ("S-CLI: the real binary (cargo build of /repo's working tree) is run on random argument vectors: 0-3 options from the "
         "documented set in short/long spelling incl. unknown and repeated ones, placed before or among 0-4 positionals; HCL file "
@@ -34,16 +36,22 @@ def judge(req, impl, model, spec):
     ok = True
     what = ""
     ie = impl.split(" ")[0]
+    # the verdict of the driver on the generator's bookkeeping: the fields of the request that say what the argument
+    # vector means (computed in Python) against the ones the Lean model Getopts.parse / Cli.inputOf derives from (argv ..)
+    spec, _, verdict = spec.partition("\x00")
+    fields_ok = ("(argv" not in req) or verdict.strip() == "argv-fields-agree"
     if ie != spec.strip():
         ok = False
         what = "exit status %s but the specification says %s for %s" % (ie, spec, req[req.find("(args"):][:200])
-    for flag in ("STDERR-ON-SUCCESS", "SILENT-FAILURE", "BAD-STATUS"):
+    for flag in ("STDERR-ON-SUCCESS", "SILENT-FAILURE", "BAD-STATUS", "STATE-ON-FAILURE"):
         if flag in impl:
             ok = False
             what = flag + " for " + req[req.find("(args"):][:200]
     if "out=finalState" in impl:
         cats.append(impl.split("banner=")[1])
-    return {"corr": impl == model, "oracle": ok, "what": what, "key": req[req.find("(args"):], "cats": cats}
+    if "out=optionMessage" in impl:
+        cats.append("getopts:" + bytes.fromhex(impl.split("msg=x")[1].split(" ")[0]).decode("utf-8", "replace").split("'")[0].strip() if "msg=x" in impl else "getopts")
+    return {"corr": impl == model and fields_ok, "oracle": ok, "what": what, "key": req[req.find("(args"):], "cats": cats}
 
 
 def streams(tier, seed):
